@@ -219,8 +219,26 @@ def _tail_shapes(P, R):
                 for c in lk.calls():
                     if c.name.endswith("::filter") and any(x[0] == "agg" and x[1] == "closure:" + cl.name for a2 in c.args for x in walk(lk.sym_operand(a2))):
                         okf = True
+    tests_valid = any(x[0] == "field" and x[2] == "valid" for g in [lk] + list(P.closures_of(lk)) for b in g.normal_blocks() for st_ in g.stmts(b) if st_[2] == "=" for x in walk(g.sym_rvalue(st_[4]))) or \
+        any(A.norm_bool(g["cond"], True)[0].endswith(".valid") for b in lk.normal_blocks() for g in A.guards_of(lk, b))
+    if not okf:
+        # loop form: every push into the result is guarded by `node.valid` of the node pushed
+        pushes = [c for c in lk.calls() if c.name == "std::vec::Vec::push" and c.bb in lk.normal_blocks()]
+
+        def _ok(c):
+            vals = [fmt_sym(x, maxdepth=40) for x in walk(lk.sym_operand(c.args[1]))]
+            for g in A.guards_of(lk, c.bb):
+                if isinstance(g["polarity"], bool):
+                    a, v = A.norm_bool(g["cond"], g["polarity"], maxdepth=40)
+                    if a.endswith(".valid") and v is True and a[:-len(".valid")] in vals:
+                        return True
+            return False
+        if pushes and all(_ok(c) for c in pushes):
+            okf = True
     if okf:
         R.hold("b", "lookup_by_key returns only nodes with valid == true", fn=lk)
+    elif tests_valid:
+        R.undecide("b", "lookup:valid-filter", "lookup_by_key reads the valid flag, but not in a filter closure or as the guard of every push", lk)
     else:
         R.violate("b", "lookup:valid-filter", "lookup_by_key does not filter on the node's valid flag: invalidated proofs are still reported as proven", lk)
     ipn = P.one(PG + "::is_proven")
